@@ -525,4 +525,230 @@ theorem inv_run {H σ} (h : Inv H σ) (ops : List Op) : Inv H (run H σ ops) := 
   | nil => exact h
   | cons op ops ih => exact ih (inv_step h op)
 
+/-! ### Footprint of a transition (no invariant needed: read off `step`) -/
+
+/-- the object a call mutates (its `self`), if any -/
+def recvOf : Op → Option Nat
+  | .dropBits s _ _ => some s
+  | .loadRef s => some s
+  | .storeBits b _ => some b
+  | .storeFrom b _ => some b
+  | .storeRef b _ => some b
+  | _ => none
+
+structure Frame (σ σ' : State) (recv : Option Nat) : Prop where
+  nObj : σ.nObj ≤ σ'.nObj
+  nBit : σ.nBit ≤ σ'.nBit
+  nRef : σ.nRef ≤ σ'.nRef
+  obj : ∀ j, j < σ.nObj → recv ≠ some j → σ'.obj j = σ.obj j
+  robj : ∀ r, recv = some r → σ'.obj r = { σ.obj r with off := (σ'.obj r).off }
+  bits : ∀ k, k < σ.nBit → (∀ r, recv = some r → k ≠ (σ.obj r).bitsId) → σ'.bitBuf k = σ.bitBuf k
+  refs : ∀ k, k < σ.nRef → (∀ r, recv = some r → k ≠ (σ.obj r).refsId) → σ'.refBuf k = σ.refBuf k
+  owner : σ' = σ ∨ ∀ r, recv = some r → r < σ.nObj ∧ (σ.obj r).tag.owner = true
+
+theorem frame_refl (σ : State) (r : Option Nat) : Frame σ σ r :=
+  ⟨Nat.le_refl _, Nat.le_refl _, Nat.le_refl _, fun _ _ _ => rfl, fun _ _ => rfl, fun _ _ _ => rfl, fun _ _ _ => rfl, .inl rfl⟩
+
+theorem frame_freshObj (σ : State) (o : ObjRec) (bits : Bits) (refs : List Nat) : Frame σ (freshObj σ o bits refs).1 none := by
+  unfold freshObj
+  refine ⟨by simp, by simp, by simp, ?_, by simp, ?_, ?_, .inr (by simp)⟩
+  · intro j hj _; have : j ≠ σ.nObj := by omega
+    simp [this]
+  · intro k hk _; have : k ≠ σ.nBit := by omega
+    simp [this]
+  · intro k hk _; have : k ≠ σ.nRef := by omega
+    simp [this]
+
+theorem frame_pushUBits (σ : State) (bs : Bits) (o : ObjRec) : Frame σ ((σ.allocB bs).push o) none := by
+  refine ⟨by simp, by simp, by simp, ?_, by simp, ?_, ?_, .inr (by simp)⟩
+  · intro j hj _; have : j ≠ σ.nObj := by omega
+    simp [this]
+  · intro k hk _; have : k ≠ σ.nBit := by omega
+    simp [this]
+  · intro k hk _; simp
+
+theorem frame_setB (σ : State) (r : Nat) (hr : r < σ.nObj) (ho : (σ.obj r).tag.owner = true) (bs : Bits) :
+    Frame σ (σ.setB (σ.obj r).bitsId bs) (some r) := by
+  refine ⟨by simp, by simp, by simp, by simp, by simp, ?_, by simp, .inr ?_⟩
+  · intro k _ hk; have := hk r rfl; simp [this]
+  · intro r' e; cases e; exact ⟨hr, ho⟩
+
+theorem frame_setR (σ : State) (r : Nat) (hr : r < σ.nObj) (ho : (σ.obj r).tag.owner = true) (rs : List Nat) :
+    Frame σ (σ.setR (σ.obj r).refsId rs) (some r) := by
+  refine ⟨by simp, by simp, by simp, by simp, by simp, by simp, ?_, .inr ?_⟩
+  · intro k _ hk; have := hk r rfl; simp [this]
+  · intro r' e; cases e; exact ⟨hr, ho⟩
+
+theorem frame_setBR (σ : State) (r : Nat) (hr : r < σ.nObj) (ho : (σ.obj r).tag.owner = true) (bs : Bits) (rs : List Nat) :
+    Frame σ ((σ.setB (σ.obj r).bitsId bs).setR (σ.obj r).refsId rs) (some r) := by
+  refine ⟨by simp, by simp, by simp, by simp, by simp, ?_, ?_, .inr ?_⟩
+  · intro k _ hk; have := hk r rfl; simp [this]
+  · intro k _ hk; have := hk r rfl; simp [this]
+  · intro r' e; cases e; exact ⟨hr, ho⟩
+
+theorem frame_setOff (σ : State) (r : Nat) (hr : r < σ.nObj) (ho : (σ.obj r).tag.owner = true) (n : Nat) :
+    Frame σ (σ.setObj r { σ.obj r with off := n }) (some r) := by
+  refine ⟨by simp, by simp, by simp, ?_, ?_, by simp, by simp, .inr ?_⟩
+  · intro j _ hj; have : j ≠ r := fun e => hj (by rw [e])
+    simp [this]
+  · intro r' e; cases e; simp
+  · intro r' e; cases e; exact ⟨hr, ho⟩
+
+theorem frame_dropRet (σ : State) (r : Nat) (hr : r < σ.nObj) (ho : (σ.obj r).tag.owner = true) (bs bs' : Bits) (o : ObjRec) :
+    Frame σ (((σ.setB (σ.obj r).bitsId bs).allocB bs').push o) (some r) := by
+  refine ⟨by simp, by simp, by simp, ?_, ?_, ?_, by simp, .inr ?_⟩
+  · intro j hj _; have : j ≠ σ.nObj := by omega
+    simp [this]
+  · intro r' e; cases e; have : r ≠ σ.nObj := by omega
+    simp [this]
+  · intro k hk hne; have := hne r rfl; have : k ≠ σ.nBit := by omega
+    simp [*]
+  · intro r' e; cases e; exact ⟨hr, ho⟩
+
+theorem frame_step (H) (σ : State) (op : Op) : Frame σ (step H σ op).1 (recvOf op) := by
+  cases op with
+  | newBits bs => exact frame_pushUBits σ bs _
+  | newRefs cs =>
+    simp only [step, recvOf]; split
+    · refine ⟨by simp, by simp, by simp, ?_, by simp, by simp, ?_, .inr (by simp)⟩
+      · intro j hj _; have : j ≠ σ.nObj := by omega
+        simp [this]
+      · intro k hk _; have : k ≠ σ.nRef := by omega
+        simp [this]
+    · exact frame_refl _ _
+  | cellCtor ub ur kind =>
+    simp only [step, recvOf]; split
+    · split
+      · refine ⟨by simp, by simp, by simp, ?_, by simp, by simp, by simp, .inr (by simp)⟩
+        intro j hj _; have : j ≠ σ.nObj := by omega
+        simp [this]
+      · exact frame_refl _ _
+    · exact frame_refl _ _
+  | cellFresh bs cs kind =>
+    simp only [step, recvOf]; split
+    · split
+      · exact frame_freshObj _ _ _ _
+      · exact frame_refl _ _
+    · exact frame_refl _ _
+  | sliceFresh bs cs kind =>
+    simp only [step, recvOf]; split
+    · exact frame_freshObj _ _ _ _
+    · exact frame_refl _ _
+  | builderNew => exact frame_freshObj _ _ _ _
+  | derive src dst =>
+    simp only [step, recvOf]; split
+    · cases dst with
+      | cell => simp only; split
+                · exact frame_freshObj _ _ _ _
+                · exact frame_refl _ _
+      | slice => exact frame_freshObj _ _ _ _
+      | builder => simp only; split
+                   · exact frame_refl _ _
+                   · exact frame_freshObj _ _ _ _
+    · exact frame_refl _ _
+  | dropBits s n ret =>
+    simp only [step, recvOf]; split
+    · rename_i hv; rw [has_iff] at hv
+      split
+      · exact frame_refl _ _
+      · split
+        · exact frame_dropRet σ s hv.1 (slice_owner hv.2) _ _ _
+        · exact frame_setB σ s hv.1 (slice_owner hv.2) _
+    · exact frame_refl _ _
+  | peekBits s n =>
+    simp only [step, recvOf]; split
+    · exact frame_pushUBits σ _ _
+    · exact frame_refl _ _
+  | loadRef s =>
+    simp only [step, recvOf]; split
+    · rename_i hv; rw [has_iff] at hv
+      split
+      · exact frame_refl _ _
+      · exact frame_setOff σ s hv.1 (slice_owner hv.2) _
+    · exact frame_refl _ _
+  | storeBits b bs =>
+    simp only [step, recvOf]; split
+    · rename_i hv; rw [has_iff] at hv
+      split
+      · exact frame_refl _ _
+      · exact frame_setB σ b hv.1 (builder_owner hv.2) _
+    · exact frame_refl _ _
+  | storeFrom b src =>
+    simp only [step, recvOf]; split
+    · rename_i hv; rw [has_iff] at hv
+      split
+      · split
+        · exact frame_refl _ _
+        · exact frame_setB σ b hv.1 (builder_owner hv.2) _
+      · split
+        · split
+          · exact frame_refl _ _
+          · split
+            · exact frame_refl _ _
+            · exact frame_setBR σ b hv.1 (builder_owner hv.2) _ _
+        · exact frame_refl _ _
+    · exact frame_refl _ _
+  | storeRef b c =>
+    simp only [step, recvOf]; split
+    · rename_i hv; simp only [Bool.and_eq_true, has_iff] at hv
+      split
+      · exact frame_refl _ _
+      · exact frame_setR σ b hv.1.1 (builder_owner hv.1.2) _
+    · exact frame_refl _ _
+  | observe c => simp only [step, recvOf]; split <;> exact frame_refl _ _
+
+/-! ### Cells are outside every footprint -/
+
+/-- what can be observed of a Cell object on the heap: the record (attribute pointers, type, cached hashes) and the
+content of the two containers its attributes point to -/
+def cellObs (σ : State) (i : Nat) : ObjRec × Bits × List Nat :=
+  (σ.obj i, σ.bitBuf (σ.obj i).bitsId, σ.refBuf (σ.obj i).refsId)
+
+theorem frame_other {H σ σ'} {recv : Option Nat} (h : Inv H σ) (f : Frame σ σ' recv) (i : Nat) (hi : i < σ.nObj)
+    (hne : recv ≠ some i) :
+    σ'.obj i = σ.obj i ∧ ((σ.obj i).tag.hasBits = true → σ'.bitBuf (σ.obj i).bitsId = σ.bitBuf (σ.obj i).bitsId) ∧
+      ((σ.obj i).tag.hasRefs = true → σ'.refBuf (σ.obj i).refsId = σ.refBuf (σ.obj i).refsId) := by
+  rcases f.owner with e | ho
+  · subst e; exact ⟨rfl, fun _ => rfl, fun _ => rfl⟩
+  · refine ⟨f.obj i hi hne, ?_, ?_⟩
+    · intro hb
+      apply f.bits _ (h.wf.idB i hi hb)
+      intro r hr
+      obtain ⟨h1, h2⟩ := ho r hr
+      have : r ≠ i := by intro e; subst e; exact hne hr
+      exact fun e => h.sep.sepB r i h1 hi this h2 hb e.symm
+    · intro hb
+      apply f.refs _ (h.wf.idR i hi hb)
+      intro r hr
+      obtain ⟨h1, h2⟩ := ho r hr
+      have : r ≠ i := by intro e; subst e; exact hne hr
+      exact fun e => h.sep.sepR r i h1 hi this h2 hb e.symm
+
+theorem frame_recv_not_cell {σ σ'} {recv : Option Nat} (f : Frame σ σ' recv) (i : Nat) (ht : (σ.obj i).tag = .cell) :
+    σ' = σ ∨ recv ≠ some i := by
+  rcases f.owner with e | ho
+  · exact .inl e
+  · right; intro e; have := (ho i e).2; rw [ht] at this; simp [Tag.owner] at this
+
+theorem cell_frame {H σ σ'} {recv : Option Nat} (h : Inv H σ) (f : Frame σ σ' recv) (i : Nat) (hi : i < σ.nObj)
+    (ht : (σ.obj i).tag = .cell) : cellObs σ' i = cellObs σ i := by
+  rcases frame_recv_not_cell f i ht with e | hne
+  · rw [e]
+  · obtain ⟨a, b, c⟩ := frame_other h f i hi hne
+    unfold cellObs; rw [a, b (by simp [ht, Tag.hasBits]), c (by simp [ht, Tag.hasRefs])]
+
+theorem cell_frame_run {H σ} (h : Inv H σ) (ops : List Op) (i : Nat) (hi : i < σ.nObj) (ht : (σ.obj i).tag = .cell) :
+    cellObs (run H σ ops) i = cellObs σ i ∧ i < (run H σ ops).nObj := by
+  induction ops generalizing σ with
+  | nil => exact ⟨rfl, hi⟩
+  | cons op ops ih =>
+    have f := frame_step H σ op
+    have e := cell_frame h f i hi ht
+    have hi' : i < (step H σ op).1.nObj := Nat.lt_of_lt_of_le hi f.nObj
+    have ht' : ((step H σ op).1.obj i).tag = .cell := by
+      have : (cellObs (step H σ op).1 i).1 = (cellObs σ i).1 := by rw [e]
+      simp only [cellObs] at this; rw [this]; exact ht
+    obtain ⟨a, b⟩ := ih (inv_step h op) hi' ht'
+    exact ⟨by simp only [run]; rw [a, e], b⟩
+
 end TonVerif.Proofs.Heap
